@@ -452,6 +452,11 @@ func (m *monitor) onTopSend(msg messaging.Msg) {
 }
 
 func (m *monitor) onBottomSend(msg messaging.Msg) {
+	if m.nextTake > m.nextAck && m.ctrl[m.nextAck].cmd == memcontrolprotocol.CmdFlush {
+		if _, ok := msg.(memprotocol.WriteReq); ok {
+			m.count("writebacks_sent_below_during_a_flush")
+		}
+	}
 	if m.st != stEnabled && m.window {
 		m.count("bottom_requests_sent_while_paused(not judged)")
 	}
